@@ -62,6 +62,7 @@ RULES = {
     "WINALIAS@bounds": frontend.rule_winalias_bounds,
     "NAMECONF": simplify.rule_nameconf,
     "DELGUARD": simplify.rule_delguard,
+    "MODGUARD": simplify.rule_modguard,
     "CFGMOD": provenance.rule_cfgmod,
     "EQVGATE": provenance.rule_eqvgate,
     "CFGSHAPE": provenance.rule_cfgshape,
